@@ -1,33 +1,72 @@
 (* C13 — directory enumeration is complete, duplicate-free and terminates.
-   PM (Proofs/Paging.v): a directory is a list of slots (free or entry); a page is ApplyEnts' loop with
-   the cookie of an entry = index of the NEXT slot and the page ending after the entry that reaches the
-   limit.  For any sequence of directory states (arbitrary additions/removals between calls, slots never
-   move, directories never shrink) and any limits:
+   PM (Proofs/Paging.v): a directory is a list of slots (free or entry); a page is the loop of dir.ApplyEnts /
+   dir.Apply with the cookie of an entry = index of the NEXT slot and the page ending after the entry that
+   fills the reply.  The size accounting is a parameter (a budget, what an entry charges, when the reply is
+   full); READDIR (one counter against `count`) and READDIRPLUS (two counters against `dircount` and
+   `maxcount`) are its two instances, and an enumeration may switch between them from call to call.
+   For any sequence of directory states (arbitrary additions/removals between calls, slots never move,
+   directories never shrink), any procedure and any limits per call (0 included):
    - the enumeration started at cookie 0 and continued with the last cookie received terminates within
      (#slots + 1) calls,
    - an entry that occupies the same slot in all states served is returned exactly once.
-   Tie: every READDIR reply of the real server is compared with the extracted page function run on the
-   slots decoded from the implementation's disk (Agree.readdir_matches_model); whole enumerations with
-   ~20 limit values and a dense sweep, for READDIR and READDIRPLUS (dircount / maxcount), with entries
-   added and removed between pages, are checked for progress, termination, no duplicates, completeness,
-   and entries/handles/attributes against the reference AM (Agree.dir_agree). *)
+   Tie: every READDIR and every READDIRPLUS reply of the real server is compared with the extracted page
+   function of its instance run on the slots decoded from the implementation's disk
+   (Agree.readdir_matches_model, Agree.readdirplus_matches_model); whole enumerations with ~20 limit values
+   and a dense sweep, for READDIR and READDIRPLUS (dircount / maxcount), with entries added and removed
+   between pages, are checked for progress, termination, no duplicates, completeness, and
+   entries/handles/attributes against the reference AM (Agree.dir_agree). *)
 From Coq Require Import List Arith NArith.
 From V Require Import Proofs.Paging.
 
-Theorem C13_enum_terminates : forall (entry : Type) (cost : entry -> N) (ds : nat -> dir entry) (counts : nat -> N),
+Theorem C13_enum_terminates : forall (entry budget : Type) (charge : budget -> entry -> budget) (full : budget -> bool)
+    (ds : nat -> dir entry) (counts : nat -> budget),
   (forall k, length (ds k) <= length (ds (S k))) ->
   forall M, (forall k, length (ds k) <= M) ->
-  forall fuel k c, c <= length (ds k) -> M + 1 - c <= fuel -> snd (enum entry cost ds counts fuel k c) = true.
+  forall fuel k c, c <= length (ds k) -> M + 1 - c <= fuel -> snd (enum entry budget charge full ds counts fuel k c) = true.
 Proof. exact enum_terminates. Qed.
 Print Assumptions C13_enum_terminates.
 
-Theorem C13_enum_exactly_once : forall (entry : Type) (cost : entry -> N) (ds : nat -> dir entry) (counts : nat -> N),
+Theorem C13_enum_exactly_once : forall (entry budget : Type) (charge : budget -> entry -> budget) (full : budget -> bool)
+    (ds : nat -> dir entry) (counts : nat -> budget),
   (forall k, length (ds k) <= length (ds (S k))) ->
   forall fuel k c i e,
   c <= length (ds k) -> c <= i ->
   (forall j, nth_error (ds (k + j)) i = Some (Some e)) ->
-  snd (enum entry cost ds counts fuel k c) = true ->
-  count_idx entry i (concat (fst (enum entry cost ds counts fuel k c))) = 1 /\
-  In (i, e) (concat (fst (enum entry cost ds counts fuel k c))).
+  snd (enum entry budget charge full ds counts fuel k c) = true ->
+  count_idx entry i (concat (fst (enum entry budget charge full ds counts fuel k c))) = 1 /\
+  In (i, e) (concat (fst (enum entry budget charge full ds counts fuel k c))).
 Proof. exact enum_exactly_once. Qed.
 Print Assumptions C13_enum_exactly_once.
+
+(* The server's instance: every call is a READDIR with its count or a READDIRPLUS with its dircount/maxcount, and
+   the page served is the page of that procedure's loop. *)
+Theorem C13_server_page_is_the_procedure's : forall (entry : Type) (cost dcost pcost : entry -> N) (d : dir entry) (c : nat),
+  (forall count, sv_page entry cost dcost pcost d c (Readdir count) = page_readdir cost d c count) /\
+  (forall dc mc, sv_page entry cost dcost pcost d c (Readdirplus dc mc) = page_readdirplus dcost pcost d c dc mc).
+Proof. exact (fun entry cost dcost pcost d c => conj (sv_page_readdir entry cost dcost pcost d c) (sv_page_readdirplus entry cost dcost pcost d c)). Qed.
+Print Assumptions C13_server_page_is_the_procedure's.
+
+Theorem C13_server_enum_terminates : forall (entry : Type) (cost dcost pcost : entry -> N) (ds : nat -> dir entry) (lims : nat -> limits),
+  (forall k, length (ds k) <= length (ds (S k))) ->
+  forall M, (forall k, length (ds k) <= M) ->
+  forall fuel k c, c <= length (ds k) -> M + 1 - c <= fuel -> snd (sv_enum entry cost dcost pcost ds lims fuel k c) = true.
+Proof. exact (fun entry cost dcost pcost ds lims => enum_terminates entry _ _ _ ds _). Qed.
+Print Assumptions C13_server_enum_terminates.
+
+Theorem C13_server_enum_exactly_once : forall (entry : Type) (cost dcost pcost : entry -> N) (ds : nat -> dir entry) (lims : nat -> limits),
+  (forall k, length (ds k) <= length (ds (S k))) ->
+  forall fuel k c i e,
+  c <= length (ds k) -> c <= i ->
+  (forall j, nth_error (ds (k + j)) i = Some (Some e)) ->
+  snd (sv_enum entry cost dcost pcost ds lims fuel k c) = true ->
+  count_idx entry i (concat (fst (sv_enum entry cost dcost pcost ds lims fuel k c))) = 1 /\
+  In (i, e) (concat (fst (sv_enum entry cost dcost pcost ds lims fuel k c))).
+Proof. exact (fun entry cost dcost pcost ds lims => enum_exactly_once entry _ _ _ ds _). Qed.
+Print Assumptions C13_server_enum_exactly_once.
+
+(* the numbers the two page instances use are the code's constants (translated on every run) *)
+From V Require Gen.GenConsts Model.Abs Model.Agree Proofs.ConstsConform.
+Theorem C13_page_constants_conform :
+  GenConsts.go_dir_entryplus3Baggage = Agree.ENTRYPLUS_BAGGAGE /\ GenConsts.go_dir_DIRENTSZ = Abs.DIRENTSZ.
+Proof. exact (conj ConstsConform.readdirplus_baggage (proj1 ConstsConform.dirent_size)). Qed.
+Print Assumptions C13_page_constants_conform.
